@@ -10,6 +10,11 @@
 import PolyVerif.Model.March
 import PolyVerif.Lemmas.MarchTableFacts
 import PolyVerif.Lemmas.MarchVolume
+import PolyVerif.Lemmas.MarchVolumeCornersA
+import PolyVerif.Lemmas.MarchVolumeCornersB
+import PolyVerif.Lemmas.MarchVolumeClosedA
+import PolyVerif.Lemmas.MarchVolumeClosedB
+import PolyVerif.Lemmas.MarchCaps
 import PolyVerif.Gen.MarchInterp
 import PolyVerif.Lemmas.RealScalar
 import Mathlib.Topology.Order.IntermediateValue
@@ -2025,6 +2030,218 @@ theorem cell_volume_nonneg (b0 b1 b2 b3 b4 b5 b6 b7 : Bool) (τ : Nat → ℝ)
 /-- non-vacuity: one inside corner, every vertex at the middle of its edge -/
 example : 0 ≤ vol6R (solidTris (bits8 true false false false false false false false)) (fun _ => 1 / 2) :=
   cell_volume_nonneg _ _ _ _ _ _ _ _ _ (fun _ _ => by norm_num)
+
+/-! ## 13. The cell polyhedron is closed; the low-face caps carry no volume -/
+
+def edgeCode (e : Nat × Nat) : Nat := e.1 * 20 + e.2
+
+theorem edgeCode_inj_aux (a b : Nat × Nat) (ha : a.1 < 20 ∧ a.2 < 20) (hb : b.1 < 20 ∧ b.2 < 20)
+    (h : edgeCode a = edgeCode b) : a = b := by
+  obtain ⟨a1, a2⟩ := a; obtain ⟨b1, b2⟩ := b
+  simp only [edgeCode] at h ha hb ⊢
+  simp only [Prod.mk.injEq]; omega
+
+theorem count_code_aux (L : List (Nat × Nat)) (hL : ∀ e ∈ L, e.1 < 20 ∧ e.2 < 20) (a : Nat × Nat) (ha : a.1 < 20 ∧ a.2 < 20) :
+    (L.map edgeCode).count (edgeCode a) = L.count a := by
+  induction L with
+  | nil => simp
+  | cons x L ih =>
+    have ihL := ih (fun e he => hL e (List.mem_cons_of_mem _ he))
+    simp only [List.map_cons, List.count_cons, ihL]
+    by_cases hx : x = a
+    · subst hx; simp
+    · have : edgeCode x ≠ edgeCode a := fun h => hx (edgeCode_inj_aux x a (hL x List.mem_cons_self) ha h)
+      simp [hx, this]
+
+theorem balanced_of_codes_aux (L : List (Nat × Nat)) (hL : ∀ e ∈ L, e.1 < 20 ∧ e.2 < 20)
+    (h : balancedCodes (L.map edgeCode) = true) : Balanced L := by
+  have key : ∀ e ∈ L, L.count e = L.count (e.2, e.1) := by
+    intro e he
+    unfold balancedCodes at h
+    rw [List.all_eq_true] at h
+    have := h (edgeCode e) (List.mem_map_of_mem he)
+    have hr : revCode (edgeCode e) = edgeCode (e.2, e.1) := by
+      have := hL e he; simp only [revCode, edgeCode]; omega
+    rw [hr, count_code_aux L hL e (hL e he), count_code_aux L hL (e.2, e.1) ⟨(hL e he).2, (hL e he).1⟩] at this
+    simpa using this
+  intro u v
+  by_cases h1 : (u, v) ∈ L
+  · exact key _ h1
+  · by_cases h2 : (v, u) ∈ L
+    · exact (key _ h2).symm
+    · rw [List.count_eq_zero_of_not_mem h1, List.count_eq_zero_of_not_mem h2]
+
+theorem poly_codes_eq_aux (bits : List Bool) : polyEdgeCodes bits = ((polyTris bits).flatMap triEdges).map edgeCode := by
+  simp only [polyEdgeCodes, List.map_flatMap, triEdges, List.map_cons, List.map_nil, edgeCode]
+
+/-- **The cell polyhedron is closed**: for every sign pattern, every directed edge of `polyTris` (table triangles + the six
+    caps) occurs exactly as often as its reverse -/
+theorem poly_closed (b0 b1 b2 b3 b4 b5 b6 b7 : Bool) :
+    Balanced ((polyTris (bits8 b0 b1 b2 b3 b4 b5 b6 b7)).flatMap triEdges) := by
+  apply balanced_of_codes_aux
+  · intro e he
+    obtain ⟨t, ht, het⟩ := List.mem_flatMap.mp he
+    have wf := Tab.table_poly_wellformed b0 b1 b2 b3 b4 b5 b6 b7
+    rw [List.all_eq_true] at wf
+    have := wf t ht
+    simp only [Bool.and_eq_true, decide_eq_true_eq] at this
+    obtain ⟨⟨⟨⟨_, l1⟩, l2⟩, l3⟩, _⟩ := this
+    simp only [triEdges, List.mem_cons, List.not_mem_nil, or_false] at het
+    rcases het with rfl | rfl | rfl <;> exact ⟨by assumption, by assumption⟩
+  · rw [← poly_codes_eq_aux]
+    cases b0 <;> cases b1
+    · exact Tab.table_poly_closed_ff b2 b3 b4 b5 b6 b7
+    · exact Tab.table_poly_closed_ft b2 b3 b4 b5 b6 b7
+    · exact Tab.table_poly_closed_tf b2 b3 b4 b5 b6 b7
+    · exact Tab.table_poly_closed_tt b2 b3 b4 b5 b6 b7
+
+noncomputable def coordR (a : Nat) (v : V3 ℝ) : ℝ := if a = 0 then v.x else if a = 1 then v.y else v.z
+
+theorem det3_planar_aux (a : Nat) (ha : a < 3) (u v w : V3 ℝ) (hu : coordR a u = 0) (hv : coordR a v = 0) (hw : coordR a w = 0) :
+    det3 u v w = 0 := by
+  interval_cases a <;> simp only [coordR] at hu hv hw <;> norm_num at hu hv hw <;>
+    simp only [det3, V3.Dot, V3.Cross, hu, hv, hw] <;> ring
+
+theorem vposR_planar_aux (τ : Nat → ℝ) (a : Nat) (ha : a < 3) (id : Nat)
+    (h : (if id < 12 then decide ((edgeRel id).2 < 3) && (edgeRel id).2 != a && coord a (edgeRel id).1 == 0 else coord a (cornerOff (id - 12)) == 0) = true) :
+    coordR a (vposR τ id) = 0 := by
+  unfold vposR
+  by_cases h12 : id < 12
+  · simp only [h12, if_true, Bool.and_eq_true, bne_iff_ne, ne_eq, beq_iff_eq] at h ⊢
+    obtain ⟨⟨h3, hax⟩, hlo⟩ := h
+    simp only [decide_eq_true_eq] at h3
+    generalize (edgeRel id).2 = ax at h3 hax ⊢
+    interval_cases a <;> simp only [coord] at hlo <;> norm_num at hlo <;> interval_cases ax <;>
+      simp_all [coordR, V3.Add, V3.Scale, ptR, unit]
+  · simp only [h12, if_false, beq_iff_eq] at h ⊢
+    interval_cases a <;> simp only [coord] at h <;> norm_num at h <;> simp [coordR, ptR, h]
+
+theorem vol6R_append_aux (T U : List (Nat × Nat × Nat)) (τ : Nat → ℝ) : vol6R (T ++ U) τ = vol6R T τ + vol6R U τ := by
+  simp [vol6R, List.map_append, List.sum_append]
+
+/-- a low-face cap carries no volume against the cell's low corner -/
+theorem low_cap_volume_zero (b0 b1 b2 b3 b4 b5 b6 b7 : Bool) (a : Nat) (ha : a < 3) (τ : Nat → ℝ) :
+    vol6R (capTrisFace (bits8 b0 b1 b2 b3 b4 b5 b6 b7) a 0) τ = 0 := by
+  have T := Tab.table_low_caps_planar b0 b1 b2 b3 b4 b5 b6 b7
+  rw [List.all_eq_true] at T
+  have Ta := T a (List.mem_range.mpr ha)
+  rw [List.all_eq_true] at Ta
+  unfold vol6R
+  apply List.sum_eq_zero
+  intro x hx
+  obtain ⟨t, ht, rfl⟩ := List.mem_map.mp hx
+  have := Ta t ht
+  simp only [List.all_cons, List.all_nil, Bool.and_true, Bool.and_eq_true, decide_eq_true_eq] at this
+  obtain ⟨⟨_, p1⟩, ⟨_, p2⟩, ⟨_, p3⟩⟩ := this
+  exact det3_planar_aux a ha _ _ _ (vposR_planar_aux τ a ha _ p1) (vposR_planar_aux τ a ha _ p2) (vposR_planar_aux τ a ha _ p3)
+
+/-- hence the volume of the closed cell polyhedron is the volume of `solidTris` -/
+theorem poly_volume_eq_solid (b0 b1 b2 b3 b4 b5 b6 b7 : Bool) (τ : Nat → ℝ) :
+    vol6R (polyTris (bits8 b0 b1 b2 b3 b4 b5 b6 b7)) τ = vol6R (solidTris (bits8 b0 b1 b2 b3 b4 b5 b6 b7)) τ := by
+  simp only [polyTris, solidTris, capTris, vol6R_append_aux,
+    low_cap_volume_zero b0 b1 b2 b3 b4 b5 b6 b7 0 (by decide) τ, low_cap_volume_zero b0 b1 b2 b3 b4 b5 b6 b7 1 (by decide) τ,
+    low_cap_volume_zero b0 b1 b2 b3 b4 b5 b6 b7 2 (by decide) τ]
+  ring
+
+/-! ### strict positivity in the open parameter cube -/
+
+theorem corners_converse_aux (E : List Nat) : ∀ (τ : Nat → ℝ) (L : List Nat), E.Nodup → (∀ e ∈ E, e ∉ L) →
+    ∀ M ∈ cornerSets E L, ∃ σ ∈ allCorners E τ,
+      (∀ e ∈ E, σ e = if e ∈ M then 1 else 0) ∧ (∀ e, e ∉ E → σ e = τ e) ∧ (∀ e, e ∉ E → (e ∈ M ↔ e ∈ L)) := by
+  induction E with
+  | nil =>
+    intro τ L _ _ M hM
+    simp only [cornerSets, List.mem_singleton] at hM
+    exact ⟨τ, by simp [allCorners], by simp, fun e _ => rfl, fun e _ => by rw [hM]⟩
+  | cons e r ih =>
+    intro τ L hnd hL M hM
+    obtain ⟨her, hndr⟩ := List.nodup_cons.mp hnd
+    have heL : e ∉ L := hL e List.mem_cons_self
+    simp only [cornerSets, List.mem_append] at hM
+    rcases hM with hM | hM
+    · obtain ⟨σ, hσ, h1, h2, h3⟩ := ih (upd τ e 0) L hndr (fun e' he' => hL e' (List.mem_cons_of_mem _ he')) M hM
+      refine ⟨σ, by simp only [allCorners, List.mem_append]; exact Or.inl hσ, ?_, ?_, ?_⟩
+      · intro e' he'
+        rcases List.mem_cons.mp he' with rfl | he'
+        · have : e' ∉ M := fun h => heL ((h3 e' her).mp h)
+          rw [h2 e' her, if_neg this]; simp [upd]
+        · exact h1 e' he'
+      · intro e' he'
+        have hne : e' ≠ e := fun h => he' (h ▸ List.mem_cons_self)
+        rw [h2 e' (fun h => he' (List.mem_cons_of_mem _ h))]; simp [upd, hne]
+      · intro e' he'; exact h3 e' (fun h => he' (List.mem_cons_of_mem _ h))
+    · obtain ⟨σ, hσ, h1, h2, h3⟩ := ih (upd τ e 1) (e :: L) hndr
+        (fun e' he' h => by
+          rcases List.mem_cons.mp h with rfl | h
+          · exact her he'
+          · exact hL e' (List.mem_cons_of_mem _ he') h) M hM
+      refine ⟨σ, by simp only [allCorners, List.mem_append]; exact Or.inr hσ, ?_, ?_, ?_⟩
+      · intro e' he'
+        rcases List.mem_cons.mp he' with rfl | he'
+        · have : e' ∈ M := (h3 e' her).mpr List.mem_cons_self
+          rw [h2 e' her, if_pos this]; simp [upd]
+        · exact h1 e' he'
+      · intro e' he'
+        have hne : e' ≠ e := fun h => he' (h ▸ List.mem_cons_self)
+        rw [h2 e' (fun h => he' (List.mem_cons_of_mem _ h))]; simp [upd, hne]
+      · intro e' he'
+        have hne : e' ≠ e := fun h => he' (h ▸ List.mem_cons_self)
+        rw [h3 e' (fun h => he' (List.mem_cons_of_mem _ h))]
+        simp [hne]
+
+theorem solid_wf_aux (b0 b1 b2 b3 b4 b5 b6 b7 : Bool) : ∀ t ∈ solidTris (bits8 b0 b1 b2 b3 b4 b5 b6 b7),
+    (t.1 ≠ t.2.1 ∧ t.1 ≠ t.2.2 ∧ t.2.1 ≠ t.2.2) ∧ (t.1 < 20 ∧ t.2.1 < 20 ∧ t.2.2 < 20) ∧
+    ∀ id, (id = t.1 ∨ id = t.2.1 ∨ id = t.2.2) → id < 12 → id ∈ crossEdges (bits8 b0 b1 b2 b3 b4 b5 b6 b7) := by
+  have wf := Tab.table_poly_wellformed b0 b1 b2 b3 b4 b5 b6 b7
+  rw [List.all_eq_true] at wf
+  intro t ht
+  have := wf t (solid_sub_poly_aux _ t ht)
+  simp only [Bool.and_eq_true, bne_iff_ne, ne_eq, decide_eq_true_eq, List.all_cons, List.all_nil, Bool.and_true,
+    Bool.or_eq_true, List.contains_iff_mem] at this
+  obtain ⟨⟨⟨⟨⟨⟨d1, d2⟩, d3⟩, l1⟩, l2⟩, l3⟩, c1, c2, c3⟩ := this
+  refine ⟨⟨d1, d2, d3⟩, ⟨l1, l2, l3⟩, ?_⟩
+  rintro id (rfl | rfl | rfl) h12
+  · rcases c1 with h | h; · omega
+    exact h
+  · rcases c2 with h | h; · omega
+    exact h
+  · rcases c3 with h | h; · omega
+    exact h
+
+/-- **Strict positivity.**  If at least one corner of the cell is inside and every vertex lies strictly inside its edge, the
+    cell solid has positive volume. -/
+theorem cell_volume_pos (b0 b1 b2 b3 b4 b5 b6 b7 : Bool) (hmix : (b0 || b1 || b2 || b3 || b4 || b5 || b6 || b7) = true)
+    (τ : Nat → ℝ) (hτ : ∀ e ∈ crossEdges (bits8 b0 b1 b2 b3 b4 b5 b6 b7), 0 < τ e ∧ τ e < 1) :
+    0 < vol6R (solidTris (bits8 b0 b1 b2 b3 b4 b5 b6 b7)) τ := by
+  have wf' := solid_wf_aux b0 b1 b2 b3 b4 b5 b6 b7
+  have hnd : (crossEdges (bits8 b0 b1 b2 b3 b4 b5 b6 b7)).Nodup := List.Nodup.filter _ List.nodup_range
+  have hval : ∀ (σ : Nat → ℝ) (M : List Nat), (∀ e ∈ crossEdges (bits8 b0 b1 b2 b3 b4 b5 b6 b7), σ e = if e ∈ M then 1 else 0) →
+      vol6R (solidTris (bits8 b0 b1 b2 b3 b4 b5 b6 b7)) σ = ((vol6I (solidTris (bits8 b0 b1 b2 b3 b4 b5 b6 b7)) M : Int) : ℝ) :=
+    fun σ M hag => vol6R_corner_aux _ σ M (fun t ht id hid h12 => hag id ((wf' t ht).2.2 id hid h12))
+  have hshift := fun M => volShift_eq_aux (solidTris (bits8 b0 b1 b2 b3 b4 b5 b6 b7)) M (fun t ht => (wf' t ht).2.1)
+  apply multiaffine_pos_aux (vol6R (solidTris (bits8 b0 b1 b2 b3 b4 b5 b6 b7))) (crossEdges (bits8 b0 b1 b2 b3 b4 b5 b6 b7))
+    (fun e _ => vol6R_affine_aux _ (fun t ht => (wf' t ht).1) e) τ hnd hτ
+  · intro σ hσ
+    obtain ⟨M, hM, hag, _, _⟩ := corners_agree_aux _ τ [] hnd (fun _ _ => by simp) σ hσ
+    rw [hval σ M hag]
+    have h1 := corner_value_nonneg_aux b0 b1 b2 b3 b4 b5 b6 b7 M hM
+    have h2 := hshift M
+    have : (0 : Int) ≤ vol6I (solidTris (bits8 b0 b1 b2 b3 b4 b5 b6 b7)) M := by
+      simp only [Int.ofNat_eq_natCast] at h2; omega
+    exact_mod_cast this
+  · have P := Tab.table_cell_volume_positive_corner b0 b1 b2 b3 b4 b5 b6 b7
+    have hnot : (!b0 && !b1 && !b2 && !b3 && !b4 && !b5 && !b6 && !b7) = false := by
+      revert hmix; cases b0 <;> cases b1 <;> cases b2 <;> cases b3 <;> cases b4 <;> cases b5 <;> cases b6 <;> cases b7 <;> simp
+    rw [hnot, Bool.false_or, List.any_eq_true] at P
+    obtain ⟨M, hM, hlt⟩ := P
+    simp only [decide_eq_true_eq] at hlt
+    obtain ⟨σ, hσ, hag, _, _⟩ := corners_converse_aux _ τ [] hnd (fun _ _ => by simp) M hM
+    refine ⟨σ, hσ, ?_⟩
+    rw [hval σ M hag]
+    have h2 := hshift M
+    have : (0 : Int) < vol6I (solidTris (bits8 b0 b1 b2 b3 b4 b5 b6 b7)) M := by
+      simp only [Int.ofNat_eq_natCast] at h2; omega
+    exact_mod_cast this
 
 /-- position of the vertex on lattice edge `l` under a global parameter assignment (0 = low end, 1 = high end) -/
 noncomputable def posL (τ : LEdge → ℝ) (l : LEdge) : V3 ℝ := V3.Add (ptR l.1) (V3.Scale (ptR (unit l.2)) (τ l))
